@@ -9,7 +9,38 @@ use sqlparser::tokenizer::{Location, Token, TokenWithLocation, Whitespace, Word}
 use std::cell::Cell;
 
 thread_local! { static STEPS: Cell<u64> = Cell::new(0); }
+thread_local! { static OUTSIDE: Cell<bool> = Cell::new(false); }
 const STEP_BUDGET: u64 = 20_000;
+
+/// The case left the fragment the model covers (the statement parsers other than COMMIT / END).
+/// The flag survives a `maybe_parse` that swallows the error value: the case is discarded.
+fn out_of_fragment(what: impl std::fmt::Display) -> ParserError {
+    OUTSIDE.with(|o| o.set(true));
+    ParserError::ParserError(format!("<<OUT-OF-FRAGMENT {}>>", what))
+}
+
+/// The tokens of the driver's vocabulary that start a statement outside the fragment
+/// (`parse_statement` dispatches on them; the model says "Expected: an SQL statement"):
+/// `(` starts a query, CREATE and BEGIN their statements.
+fn starts_foreign_statement(t: &Token) -> bool {
+    matches!(t, Token::Word(w) if w.keyword == Keyword::CREATE || w.keyword == Keyword::BEGIN) || *t == Token::LParen
+}
+
+/// Number of such words among the next 64 raw tokens (token vectors of the driver are shorter).
+fn foreign_starts_ahead(ps: &Parser) -> usize {
+    (0..64).filter(|k| starts_foreign_statement(&ps.peek_nth_token_no_skip(*k).token)).count()
+}
+
+fn commit_values(v: Vec<sqlparser::ast::Statement>) -> Result<Val, ParserError> {
+    let mut out = vec![];
+    for st in v {
+        match st {
+            sqlparser::ast::Statement::Commit { chain } => out.push(Val::Bool(chain)),
+            other => return Err(out_of_fragment(other)),
+        }
+    }
+    Ok(Val::List(out))
+}
 
 /// Both signatures of `maybe_parse` (current: `Option<T>`; repaired: `Result<Option<T>, _>`)
 /// are accepted, so that the harness builds before and after a repair.
@@ -222,9 +253,12 @@ pub fn run<'a>(p: &Value, ps: &mut Parser<'a>) -> Result<Val, ParserError> {
             if ps.peek_token().token == Token::LParen {
                 return Ok(Val::Unit);
             }
+            if starts_foreign_statement(&ps.peek_token().token) {
+                return Err(out_of_fragment("statement start"));
+            }
             match ps.parse_statement()? {
                 sqlparser::ast::Statement::Commit { chain } => Ok(Val::Bool(chain)),
-                other => Err(ParserError::ParserError(format!("<<OUT-OF-FRAGMENT {}>>", other))),
+                other => Err(out_of_fragment(other)),
             }
         }
         "stmts" => {
@@ -234,15 +268,38 @@ pub fn run<'a>(p: &Value, ps: &mut Parser<'a>) -> Result<Val, ParserError> {
                     return Ok(Val::Unit);
                 }
             }
-            let v = ps.parse_statements()?;
-            let mut out = vec![];
-            for st in v {
-                match st {
-                    sqlparser::ast::Statement::Commit { chain } => out.push(Val::Bool(chain)),
-                    other => return Err(ParserError::ParserError(format!("<<OUT-OF-FRAGMENT {}>>", other))),
-                }
+            if foreign_starts_ahead(ps) > 0 {
+                return Err(out_of_fragment("statement start ahead"));
             }
-            Ok(Val::List(out))
+            commit_values(ps.parse_statements()?)
+        }
+        // block probe: the only public route to parse_statement_list(true), the body of
+        //   CREATE PROCEDURE <name> AS BEGIN <statements> END.
+        // A no-op unless the five non-whitespace tokens at the cursor are exactly
+        //   CREATE PROCEDURE <unquoted non-keyword word> AS BEGIN
+        // (the same bounded look-ahead as Machine.block_probe).
+        "block" => {
+            let kw = |t: &Token, k: Keyword| matches!(t, Token::Word(w) if w.keyword == k);
+            let t: Vec<Token> = (0..5).map(|n| ps.peek_nth_token(n).token).collect();
+            let plain = matches!(&t[2], Token::Word(w) if w.quote_style.is_none() && w.keyword == Keyword::NoKeyword);
+            if !(kw(&t[0], Keyword::CREATE)
+                && kw(&t[1], Keyword::PROCEDURE)
+                && plain
+                && kw(&t[3], Keyword::AS)
+                && kw(&t[4], Keyword::BEGIN))
+            {
+                return Ok(Val::Unit);
+            }
+            // the header holds one CREATE and one BEGIN; any further one, or a `(`, could start a
+            // statement of the body that is outside the fragment (a nested procedure, BEGIN
+            // TRANSACTION, a query)
+            if foreign_starts_ahead(ps) > 2 {
+                return Err(out_of_fragment("statement start in the body"));
+            }
+            match ps.parse_statement()? {
+                sqlparser::ast::Statement::CreateProcedure { body, .. } => commit_values(body),
+                other => Err(out_of_fragment(other)),
+            }
         }
         // element parser: one word
         "word" => {
@@ -275,8 +332,13 @@ pub fn case(c: &Value) -> Value {
     let mut res = vec![];
     let mut status = "ok";
     STEPS.with(|s| s.set(0));
+    OUTSIDE.with(|o| o.set(false));
     for op in c["ops"].as_array().unwrap() {
         let r = std::panic::catch_unwind(std::panic::AssertUnwindSafe(|| run(op, &mut ps)));
+        if OUTSIDE.with(|o| o.get()) {
+            status = "discard";
+            break;
+        }
         match r {
             Ok(Ok(v)) => res.push(json_of_val(&v)),
             Ok(Err(e)) => {
